@@ -1146,7 +1146,17 @@ impl<Front: SocketHandler + std::fmt::Debug, L: ListenerHandler + L7ListenerHand
                         dead_backends.push(*token);
                     }
 
-                    if !client.readiness().filter_interest().is_empty() {
+                    // A hung-up backend that is kept only until the frontend drains
+                    // its full buffer has nothing to do in this pass: its HUP/ERROR
+                    // bits stay set, and counting them as pending work would spin
+                    // this loop until the iteration budget kills the session.
+                    // `try_resume_reading` re-arms it once the frontend wrote.
+                    let pending = client.readiness().filter_interest();
+                    let waiting_for_drain = dead
+                        && !pending.is_readable()
+                        && !pending.is_writable()
+                        && client.has_buffer_pressure(&self.context);
+                    if !pending.is_empty() && !waiting_for_drain {
                         all_backends_readiness_are_empty = false;
                     }
                 }
